@@ -87,3 +87,18 @@ Definition elems (l : list node) := filter is_elem l.
 
 Definition E (l : list node) := evaluate (length l) l.
 Definition S_ (l : list node) := spec (length l) l.
+
+(* the same walk, also recording the non-element nodes it reaches (text that is rendered): a node inside the
+   range a chain skips is not reached.  Elements are tagged true, other nodes false. *)
+Fixpoint evaluate_t (fuel : nat) (l : list node) : list (bool * id) :=
+  match fuel with O => [] | S f =>
+  match l with
+  | [] => []
+  | NOther i :: r => (false, i) :: evaluate_t f r
+  | NPlain i :: r => (true, i) :: evaluate_t f r
+  | NIf c i :: r => let '(out, skip) := chain c i r in map (pair true) out ++ evaluate_t f (skipn skip r)
+  | NFor O i :: r => let '(out, skip) := for_else r 1 in map (pair true) out ++ evaluate_t f (skipn skip r)
+  | NFor n i :: r => map (pair true) (rep_id n i) ++ evaluate_t f r
+  | _ :: r => evaluate_t f r
+  end end.
+Definition ET (l : list node) := evaluate_t (length l) l.
